@@ -238,6 +238,129 @@ static void part_copy(const std::vector<unsigned>& ns) {
     R.bound_done("copy: n x nb x all fillings x 3 extents x {copy constructor, assignment}");
 }
 
+// ---- part=hist : explicit search over call histories of one PhaseSpace object (plus a second object for assignment / swap) against a reference model.
+// The object caches what it derives from the grid (two projections, populations + total, first/second moments); the methods refresh some of them and
+// read others.  The reference model tracks, per cache, whether it is FRESH (computed from the grid as it is now, from fresh inputs); an operation is
+// enabled when the caches it reads are fresh (the shorthand integrateAndNormalize() needs only the position projection).  After EVERY operation of EVERY
+// history up to the depth bound: each cache the model calls fresh equals its definition recomputed in double precision from the object's current grid;
+// after a renormalisation the grid is the old grid times share/population (empty buckets zero) and, after the shorthand, the reported populations are
+// the shares; a copy / an assigned object / a swapped pair carry what the statement says they carry.
+struct HModel { bool X = false, Y = false, F = false, M0 = false, M1 = false; };
+struct HObj { std::unique_ptr<PhaseSpace> ps; HModel m; };
+static void hist_pattern(std::vector<float>& d, unsigned n, unsigned nb, int k, const std::vector<float>& fill) {
+    for (unsigned b = 0; b < nb; b++) for (unsigned x = 0; x < n; x++) for (unsigned y = 0; y < n; y++) {
+        const double cx = (k ? 2.3 : 4.6) + 0.7 * b, cy = (k ? 4.9 : 2.8) - 0.4 * b, sx = k ? 1.4 : 1.1, sy = k ? 0.9 : 1.6;
+        double v = (0.3 + k + 0.5 * b) * std::exp(-0.5 * ((x - cx) * (x - cx) / (sx * sx) + (y - cy) * (y - cy) / (sy * sy)));
+        if (fill[b] == 0 && k == 1) v = 0;        // pattern 1 leaves a bucket the filling declares empty really empty, pattern 0 puts stray charge there
+        d[((size_t)b * n + x) * n + y] = (float)v;
+    }
+}
+struct HRef { std::vector<double> px, py, fill, m0q, m1q, m0p, m1p; double integral; };
+static HRef hist_ref(const PhaseSpace& ps, unsigned n, unsigned nb, const std::vector<float>& px_real, const std::vector<float>& py_real, const std::vector<float>& fill_real) {
+    // definitions evaluated in double: projections from the grid; populations from the REAL position projection; moments from the REAL projections and populations
+    HRef r; r.px.assign((size_t)nb * n, 0); r.py.assign((size_t)nb * n, 0); r.fill.assign(nb, 0); r.m0q = r.m1q = r.m0p = r.m1p = std::vector<double>(nb, 0); r.integral = 0;
+    const float* d = ps.getData(); const auto& ws = ps._ws;
+    for (unsigned b = 0; b < nb; b++) for (unsigned x = 0; x < n; x++) for (unsigned y = 0; y < n; y++) { const double v = d[((size_t)b * n + x) * n + y]; r.px[b * n + x] += v * ws[y]; r.py[b * n + y] += v * ws[x]; }
+    for (unsigned b = 0; b < nb; b++) { for (unsigned x = 0; x < n; x++) r.fill[b] += (double)px_real[b * n + x] * ws[x]; r.integral += r.fill[b]; }
+    for (unsigned b = 0; b < nb; b++) if (fill_real[b] != 0) {
+        double a = 0, c = 0; for (unsigned i = 0; i < n; i++) { a += (double)px_real[b * n + i] * ps.q(i); c += (double)py_real[b * n + i] * ps.p(i); }
+        r.m0q[b] = a * ps.getDelta(0) / fill_real[b]; r.m0p[b] = c * ps.getDelta(1) / fill_real[b];
+        a = c = 0; for (unsigned i = 0; i < n; i++) { a += (double)px_real[b * n + i] * std::pow(ps.q(i) - r.m0q[b], 2); c += (double)py_real[b * n + i] * std::pow(ps.p(i) - r.m0p[b], 2); }
+        r.m1q[b] = a * ps.getDelta(0) / fill_real[b]; r.m1p[b] = c * ps.getDelta(1) / fill_real[b];
+    }
+    return r;
+}
+static void part_hist(unsigned depth) {
+    const unsigned n = 8;
+    const std::vector<std::vector<float>> fills = {{1.f}, {0.25f, 0.75f}, {0.5f, 0.f, 0.5f}};
+    const char OPS[] = "abXYINSVWCAP";   // a,b: write pattern 0/1; X,Y projections; I integrate; N normalize; S shorthand; V variance(0); W variance(1); C copy; A assign from the second object; P swap with it
+    uint64_t states = 0, transitions = 0; std::unordered_set<uint64_t> seen;
+    for (size_t fi = 0; fi < fills.size(); fi++) {
+        const auto& fill = fills[fi]; const unsigned nb = fill.size();
+        // histories are enumerated as base-12 numbers of `depth` digits; the first digit selects the shard
+        std::vector<int> h(depth, 0);
+        uint64_t total = 1; for (unsigned i = 0; i < depth; i++) total *= 12;
+        // replay mode: --case "hist filling=<f> ops=<history>" runs exactly that history
+        bool single = false; unsigned dlen = depth;
+        if (!R.only_case.empty()) {
+            auto d = mcx::parse_desc(R.only_case);
+            if (R.only_case.rfind("hist ", 0) != 0 || d["filling"] != fstr(fill)) continue;
+            const std::string ops = d["ops"]; dlen = ops.size(); h.assign(dlen, 0);
+            for (unsigned i = 0; i < dlen; i++) h[i] = (int)(std::string(OPS).find(ops[i]));
+            single = true; total = 1;
+        }
+        const unsigned depth_run = dlen;
+        for (uint64_t code = 0; code < total; code++) {
+            if (!single) { uint64_t c = code; for (unsigned i = 0; i < depth; i++) { h[depth - 1 - i] = c % 12; c /= 12; } }
+            if (!single && code % 144 == 0) {     // sharding granularity: blocks of 144 histories (same first depth-2 operations)
+                std::string blk = mcx::Desc()("part", "hist")("filling", fstr(fill))("block", code / 144).str();
+                if (!R.mine(blk)) { code += 143; continue; }
+                if (R.out_of_time()) { R.not_completed = blk; return; }
+            }
+            set_size(n, nb);
+            HObj o, o2; std::vector<float> dat((size_t)n * n * nb);
+            hist_pattern(dat, n, nb, 0, fill); o.ps = std::unique_ptr<PhaseSpace>(new PhaseSpace(-6, 6, 1e-3, -6, 6, 6.1e5, nullptr, 1e-9, 1e-3, fill, 1, dat.data())); o.m = HModel{true, true, true, false, false};
+            hist_pattern(dat, n, nb, 1, fill); o2.ps = std::unique_ptr<PhaseSpace>(new PhaseSpace(-6, 6, 1e-3, -6, 6, 6.1e5, nullptr, 1e-9, 1e-3, fill, 1, dat.data())); o2.m = HModel{true, true, true, false, false};
+            o2.ps->variance(0); o2.ps->variance(1); o2.m.M0 = o2.m.M1 = true;
+            std::string hs; bool dead = false;
+            for (unsigned step = 0; step < depth_run && !dead; step++) {
+                const char op = OPS[h[step]]; PhaseSpace& ps = *o.ps; HModel& m = o.m;
+                std::vector<float> before(ps.getData(), ps.getData() + dat.size()); std::vector<double> popb(nb); for (unsigned b = 0; b < nb; b++) popb[b] = ps.getBunchPopulation()[b];
+                // the shorthand integrates first: the population it divides by is that of the (fresh) position projection
+                if (op == 'S' && m.X) for (unsigned b = 0; b < nb; b++) { double f = 0; for (unsigned i = 0; i < n; i++) f += (double)ps.getProjection(0)[b][i] * ps._ws[i]; popb[b] = f; }
+                bool enabled = true, renormed = false, shorthand = false;
+                switch (op) {
+                    case 'a': case 'b': hist_pattern(dat, n, nb, op == 'b', fill); std::copy(dat.begin(), dat.end(), ps.getData()); m = HModel(); break;
+                    case 'X': ps.updateXProjection(); m.X = true; m.F = false; m.M0 = false; m.M1 = false; break;
+                    case 'Y': ps.updateYProjection(); m.Y = true; m.M1 = false; break;
+                    case 'I': if (!m.X) { enabled = false; break; } ps.integrate(); m.F = true; m.M0 = m.M1 = false; break;
+                    case 'N': if (!m.F) { enabled = false; break; } ps.normalize(); m = HModel(); renormed = true; break;
+                    case 'S': if (!m.X) { enabled = false; break; } ps.integrateAndNormalize(); m = HModel(); m.X = m.F = true; renormed = shorthand = true; break;
+                    case 'V': if (!(m.X && m.F)) { enabled = false; break; } ps.variance(0); m.M0 = true; break;
+                    case 'W': if (!(m.Y && m.F)) { enabled = false; break; } ps.variance(1); m.M1 = true; break;
+                    case 'C': { std::unique_ptr<PhaseSpace> cp(new PhaseSpace(ps)); if (memcmp(cp->getData(), ps.getData(), 4 * dat.size()) != 0) R.violate("C09/history/copy/data-differs", hs + op, "copy constructor"); o.ps = std::move(cp); m = HModel{true, true, true, false, false}; break; }
+                    case 'A': { *o.ps = *o2.ps; if (memcmp(o.ps->getData(), o2.ps->getData(), 4 * dat.size()) != 0) R.violate("C09/history/assign/data-differs", hs + op, "operator="); m = HModel{o2.m.X, o2.m.Y, o2.m.F, false, false};
+                                // an assigned object carries the projections and populations of its original
+                                if (o2.m.X && o2.m.F) for (unsigned b = 0; b < nb; b++) if (o.ps->getBunchPopulation()[b] != o2.ps->getBunchPopulation()[b] || memcmp(&o.ps->getProjection(0)[b][0], &o2.ps->getProjection(0)[b][0], 4 * n) != 0) { R.violate("C09/history/assign/caches-differ", hs + op, "population or position projection of the assigned object differs from the original's"); break; }
+                                break; }
+                    case 'P': { o.ps->swap(*o2.ps); std::swap(o.m, o2.m); break; }
+                }
+                if (!enabled) { dead = true; break; }
+                hs += op; transitions++;
+                PhaseSpace& q = *o.ps; HModel& mm = o.m;
+                uint64_t hsh = mcx::fnv(q.getData(), 4 * dat.size(), fi * 131 + (mm.X ? 1 : 0) + (mm.Y ? 2 : 0) + (mm.F ? 4 : 0) + (mm.M0 ? 8 : 0) + (mm.M1 ? 16 : 0));
+                for (unsigned b = 0; b < nb; b++) { hsh = mcx::fnv(&q.getProjection(0)[b][0], 4 * n, hsh); hsh = mcx::fnv(&q.getProjection(1)[b][0], 4 * n, hsh); float pp = q.getBunchPopulation()[b]; hsh = mcx::fnv(&pp, 4, hsh); }
+                if (seen.insert(hsh).second) states++;
+                R.eval("hist filling=" + fstr(fill) + " ops=" + hs, hsh, false);
+                // ---- oracles
+                std::vector<float> px((size_t)nb * n), py((size_t)nb * n), fr(nb);
+                for (unsigned b = 0; b < nb; b++) { for (unsigned i = 0; i < n; i++) { px[b * n + i] = q.getProjection(0)[b][i]; py[b * n + i] = q.getProjection(1)[b][i]; } fr[b] = q.getBunchPopulation()[b]; }
+                HRef r = hist_ref(q, n, nb, px, py, fr);
+                const std::string kase = "hist filling=" + fstr(fill) + " ops=" + hs;
+                auto bad = [&](const char* what, double got, double want) { char d[200]; snprintf(d, 200, "after '%s': %s = %.9g, definition evaluated on the current grid %.9g", hs.c_str(), what, got, want); R.violate(std::string("C09/history/") + what + "/after=" + op, kase, d); };
+                double mx = 0; for (double v : r.px) mx = std::max(mx, std::fabs(v)); for (double v : r.py) mx = std::max(mx, std::fabs(v));
+                if (mm.X) for (size_t i = 0; i < px.size(); i++) if (!(std::fabs(px[i] - r.px[i]) <= 1e-5 * mx)) { bad("position-projection", px[i], r.px[i]); break; }
+                if (mm.Y) for (size_t i = 0; i < py.size(); i++) if (!(std::fabs(py[i] - r.py[i]) <= 1e-5 * mx)) { bad("energy-projection", py[i], r.py[i]); break; }
+                if (mm.F) { double tot = 0; for (unsigned b = 0; b < nb; b++) { tot += fr[b]; if (!(std::fabs(fr[b] - r.fill[b]) <= 1e-5 * std::max(1e-3, std::fabs(r.fill[b])))) { bad("population", fr[b], r.fill[b]); break; } }
+                            if (!(std::fabs(q.getIntegral() - tot) <= 1e-5 * std::max(1e-3, std::fabs(tot)))) bad("integral", q.getIntegral(), tot); }
+                if (mm.M0) for (unsigned b = 0; b < nb; b++) if (fill[b] > 0) { if (!(std::fabs(q.getMoment(0, 0)[b] - r.m0q[b]) <= 2e-5 * 6)) { bad("mean-position", q.getMoment(0, 0)[b], r.m0q[b]); break; } if (!(std::fabs(q.getBunchLength()[b] - std::sqrt(r.m1q[b])) <= 2e-5 * 6)) { bad("bunch-length", q.getBunchLength()[b], std::sqrt(r.m1q[b])); break; } }
+                if (mm.M1) for (unsigned b = 0; b < nb; b++) if (fill[b] > 0) { if (!(std::fabs(q.getMoment(1, 0)[b] - r.m0p[b]) <= 2e-5 * 6)) { bad("mean-energy", q.getMoment(1, 0)[b], r.m0p[b]); break; } if (!(std::fabs(q.getEnergySpread()[b] - std::sqrt(r.m1p[b])) <= 2e-5 * 6)) { bad("energy-spread", q.getEnergySpread()[b], std::sqrt(r.m1p[b])); break; } }
+                if (renormed) {
+                    const float* dn = q.getData();
+                    for (unsigned b = 0; b < nb; b++) for (size_t i = 0; i < (size_t)n * n; i++) {
+                        const double want = fill[b] > 0 ? (double)before[(size_t)b * n * n + i] * fill[b] / popb[b] : 0.0, got = dn[(size_t)b * n * n + i];
+                        if (!(std::fabs(got - want) <= 4 * EPS * std::fabs(want)) || !std::isfinite(got)) { bad("renormalised-grid", got, want); b = nb; break; }
+                    }
+                    if (shorthand) for (unsigned b = 0; b < nb; b++) if (!(std::fabs(fr[b] - fill[b]) <= 32 * EPS * std::max(fill[b], 0.01f))) { bad("population-after-shorthand", fr[b], fill[b]); break; }
+                }
+            }
+        }
+    }
+    R.addnum("states", (double)states); R.addnum("transitions", (double)transitions);
+    R.bound_done("hist: every history of {write pattern 0/1, updateX, updateY, integrate, normalize, integrateAndNormalize, variance(0), variance(1), copy, assign, swap} up to depth " + std::to_string(depth) +
+                 " (operations whose inputs the model calls stale end a history) x 3 filling patterns (one with an empty bucket), 8x8 grid; every cache the model calls fresh == its definition on the current grid, after every operation");
+}
+
 int main(int argc, char** argv) {
     R.init(argc, argv, "C09", "C09_moments"); quiet();
     R.rule = "one evaluation = one real PhaseSpace built from enumerated data, renormalised and measured; distinct = FNV of case + resulting data/moments; trivial = single bunch dense data";
@@ -246,5 +369,6 @@ int main(int argc, char** argv) {
     part_norm(T ? std::vector<unsigned>{8, 9, 16, 17, 24} : std::vector<unsigned>{8, 9});
     part_gauss(T ? std::vector<unsigned>{32, 33, 48, 64, 65, 96} : std::vector<unsigned>{32, 33, 48}, T);
     part_copy(T ? std::vector<unsigned>{8, 9, 16, 17, 32, 33} : std::vector<unsigned>{8, 9, 16});
+    part_hist(D ? 6 : 5);
     return R.finish();
 }
